@@ -62,3 +62,29 @@ Section Main.
     exists c'. split; [exact E|]. apply acts_iff. exact A.
   Qed.
 End Main.
+
+(* unfolding of the vocabulary of convert_heralded_correct *)
+Lemma run_emitted_def :
+  forall (K : Type) (o : ops K) (h r2 r3i qi gm r7 : K) (ang : nat -> K * K) (kcz kcx0 kcx1 : K * K)
+         (ops : list eop) (c : circ (K:=K)) (nq : nat) (gs : list qgate),
+    run_emitted o h r2 r3i qi gm r7 ang ops c =
+      fold_left (fun r op => do c0 <- r;
+                             do gt <- gate_of o h r2 r3i qi gm r7 ang op;
+                             op_add o c0 (g_circ gt) (Z.of_nat (op_mode op)) false) ops (Ok c) /\
+    kprod o kcz kcx0 kcx1 ops (k1 (co o)) =
+      fold_left (fun a op => kmul (co o) a (match op with
+                                            | ECZ true _ => kcz
+                                            | ECX true 0 _ => kcx0
+                                            | ECX true _ _ => kcx1
+                                            | _ => k1 (co o)
+                                            end)) ops (k1 (co o)) /\
+    Vsrc o h ang nq gs =
+      (fun b' b => sval (co o) (run_src sst (sact (co o) (m1 o h ang)) 0 gs (s_id (co o) nq)) (lab b') (lab b)) /\
+    (forall s i : nat,
+       m1 o h ang Gh i = m1_of (named_sq o h gH) /\
+       m1 o h ang Grz i = m1_of (named_rq o gRz (fst (ang i)) (snd (ang i))) /\
+       gate_of o h r2 r3i qi gm r7 ang (EGate1 Gh i s) = gate_sq o h gH /\
+       gate_of o h r2 r3i qi gm r7 ang (EGate1 Grz i s) = gate_rq o gRz (fst (ang i)) (snd (ang i)) /\
+       gate_of o h r2 r3i qi gm r7 ang (ECZ true s) = gate_CZ_Heralded o h r2 qi gm /\
+       gate_of o h r2 r3i qi gm r7 ang (ECX true i s) = gate_CNOT_Heralded o h r2 qi gm (Z.of_nat i)).
+Proof. intros. repeat split; reflexivity. Qed.
